@@ -470,8 +470,83 @@ def r5_reference_dates(chk, F):
     chk.floor(rule, "scales", n, 9)
 
 
+def r6_wrappers(chk, F):
+    """The Gregorian initializers are wrappers: each must hand its own parameters, in role order, to maybe_from_gregorian (directly
+    or through another wrapper), with the documented constants for what it leaves out (midnight = 0 h, noon = 12 h, no
+    nanoseconds, UTC / TAI for the scale-specific forms), and return that result (unwrapped for the panicking forms)."""
+    rule = "C08.R6"
+    eng, D = ctx(F)
+    mfg = F.find1(self_ty="Epoch", name="maybe_from_gregorian", trait="")
+    P = ("year", "month", "day", "hour", "minute", "second", "nanos")
+    table = {}
+    for scale_tag, sc in (("", None), ("_tai", "TAI"), ("_utc", "UTC")):
+        table["maybe_from_gregorian" + scale_tag] = (P, sc)
+        table["from_gregorian" + scale_tag] = (P, sc)
+        table["from_gregorian%s_at_midnight" % scale_tag] = (("year", "month", "day", 0, 0, 0, 0), sc)
+        table["from_gregorian%s_at_noon" % scale_tag] = (("year", "month", "day", 12, 0, 0, 0), sc)
+        table["from_gregorian%s_hms" % scale_tag] = (("year", "month", "day", "hour", "minute", "second", 0), sc)
+    del table["maybe_from_gregorian"]
+    n = 0
+    for name, (want, sc) in sorted(table.items()):
+        try:
+            fn = F.find1(self_ty="Epoch", name=name, trait="")
+        except Exception:
+            continue
+        eng.hooks_by_id = {mfg["id"]: rec_hook(D, "mfg")}
+        finals, args = D.run(fn)
+        eng.hooks_by_id = {}
+        n += 1
+        names = [fn["locals"][i + 1].get("name") for i in range(fn["arg_count"])]
+        ok = True
+        why = []
+        nret = 0
+        for st in finals:
+            calls = recs(st, "mfg")
+            if st.end == "panic" and len(calls) == 1:
+                continue  # expect() on the Err the constructor returned
+            if st.end != "return":
+                ok = False
+                why.append("path ends in %s" % st.end)
+                continue
+            nret += 1
+            if len(calls) != 1:
+                ok = False
+                why.append("%d constructor calls" % len(calls))
+                continue
+            a, res = calls[0]
+            for k, w in enumerate(want):
+                got = a[k]
+                if isinstance(w, int):
+                    good = isinstance(got, Int) and got.lin.is_const() and got.lin.k == w
+                else:
+                    good = w in names and got is args[names.index(w)]
+                if not good:
+                    ok = False
+                    why.append("argument %d (%s) is %r" % (k, P[k], got))
+            if sc is None:
+                good = "time_scale" in names and a[7] is args[names.index("time_scale")]
+            else:
+                good = scale_name(eng, st, a[7]) == sc
+            if not good:
+                ok = False
+                why.append("scale argument is %r" % (a[7],))
+            r = st.ret
+            if name.startswith("maybe_"):
+                good = r is res
+            else:
+                rr = st.enum_ref.get(res.name, res) if isinstance(res, SymEnum) else res
+                good = isinstance(rr, Enum) and rr.fs and r is rr.fs[0]
+            if not good:
+                ok = False
+                why.append("returns something else than the constructor's result")
+        chk.ob(rule, "Epoch::%s" % name, "=maybe_from_gregorian(%s,%s)" % (",".join(map(str, want)), sc or "time_scale"), ok and nret >= 1, "E5 delegation (parameter flow)",
+               detail=None if ok and nret >= 1 else sorted(set(why))[:4])
+    chk.floor(rule, "Gregorian initializer wrappers", n, 12)
+
+
 def run(chk, F, tier):
     r1_validity(chk, F)
+    r6_wrappers(chk, F)
     r5_reference_dates(chk, F)
     r2_tables(chk, F)
     r3_arithmetic(chk, F)
